@@ -105,6 +105,23 @@ pub struct SimInner {
     /// clones may need a warm-up before their first Ready (a real timer, so virtual time passes)
     warm_at: Option<tokio::time::Instant>,
     warm_sleep: Option<Pin<Box<tokio::time::Sleep>>>,
+    /// capacity mode: this instance holds a reserved slot (answered Ready, not called yet)
+    reserved: bool,
+}
+
+impl Drop for SimInner {
+    fn drop(&mut self) {
+        if self.reserved {
+            let svc = self.svc as usize;
+            let ws = world::try_with_ret(|w| {
+                w.reserved[svc] -= 1;
+                std::mem::take(&mut w.ready_waiters)
+            });
+            for w in ws.unwrap_or_default() {
+                w.wake();
+            }
+        }
+    }
 }
 
 impl SimInner {
@@ -120,6 +137,7 @@ impl SimInner {
             ready: false,
             warm_at: None,
             warm_sleep: None,
+            reserved: false,
         }
     }
 }
@@ -165,6 +183,11 @@ impl Drop for Guard {
             serial: self.serial,
             how,
         });
+        // capacity mode: a slot is free again
+        let ws = world::with(|w| std::mem::take(&mut w.ready_waiters));
+        for w in ws {
+            w.wake();
+        }
     }
 }
 
@@ -187,6 +210,20 @@ impl tower::Service<Req> for SimInner {
             }
             self.warm_at = None;
             self.warm_sleep = None;
+        }
+        if !self.reserved {
+            let cap = world::with(|w| w.script.capacity.get(&svc).copied());
+            if let Some(cap) = cap {
+                let full = world::with(|w| w.in_flight[svc as usize] + w.reserved[svc as usize] >= cap);
+                if full {
+                    world::fault("ready_waits_for_capacity");
+                    let wk = cx.waker().clone();
+                    world::with(|w| w.ready_waiters.push(wk));
+                    return Poll::Pending;
+                }
+                world::with(|w| w.reserved[svc as usize] += 1);
+                self.reserved = true;
+            }
         }
         let (strict, res) = world::with(|w| {
             let strict = w.script.strict;
@@ -235,6 +272,9 @@ impl tower::Service<Req> for SimInner {
     fn call(&mut self, req: Req) -> InnerFut {
         let svc = self.svc;
         let ready_ok = std::mem::replace(&mut self.ready, false);
+        if std::mem::replace(&mut self.reserved, false) {
+            world::with(|w| w.reserved[svc as usize] -= 1);
+        }
         if world::with(|w| w.calls_by_svc.get(&svc).copied().unwrap_or(0) > w.call_limit) {
             // a runaway loop inside one poll would otherwise hang the simulator
             panic!("SIM-LIMIT: more than 5000 inner calls in one run");
